@@ -125,7 +125,9 @@ theorem step_count (s : St) (e : Ev) (h : CountInv s) : CountInv (step s e).1 :=
     · split
       · exact h
       · split
-        · simp only [CountInv, nOpen] at *; omega
+        · split
+          · simp only [CountInv, nOpen] at *; omega
+          · simp only [CountInv, nOpen] at *; omega
         · simp only [CountInv, nOpen] at *; omega
   | tmoCas =>
     simp only [step]
@@ -223,7 +225,9 @@ theorem step_torn (s : St) (e : Ev) (h : Torn s) : Torn (step s e).1 := by
       split
       · exact h
       · split
-        · intro hs; exact absurd (h hs).1 hc
+        · split
+          · intro hs; exact absurd (h hs).1 hc
+          · intro hs; exact absurd (h hs).1 hc
         · intro hs; exact absurd (h hs).1 hc
   | tmoCas =>
     simp only [step]
@@ -353,7 +357,9 @@ theorem step_tmo (s : St) (e : Ev) (h : TmoInv s) : TmoInv (step s e).1 := by
     · exact hb
     · split
       · exact hb
-      · split <;> exact hb
+      · split
+        · split <;> exact hb
+        · exact hb
   | tmoCas =>
     simp only [step]
     split
@@ -408,7 +414,7 @@ theorem c12_backlog_bounded (sp : Bool) (evs : List Ev) :
         · split
           · exact h
           · split
-            · exact h
+            · split <;> exact h
             · rename_i hlt
               simp only [List.length_append, List.length_cons, List.length_nil]
               omega
